@@ -22,11 +22,13 @@ func (r *recTx) Set(key, value []byte) error {
 	r.keys = append(r.keys, append([]byte{}, key...))
 	return nil
 }
-func (r *recTx) Get(key []byte) ([]byte, error)            { return nil, nil }
-func (r *recTx) Delete(key []byte) error                   { return nil }
-func (r *recTx) Cursor(forward bool) (store.Cursor, error) { return nil, fmt.Errorf("recTx: no cursor") }
-func (r *recTx) Commit() error                             { return nil }
-func (r *recTx) Rollback() error                           { return nil }
+func (r *recTx) Get(key []byte) ([]byte, error) { return nil, nil }
+func (r *recTx) Delete(key []byte) error        { return nil }
+func (r *recTx) Cursor(forward bool) (store.Cursor, error) {
+	return nil, fmt.Errorf("recTx: no cursor")
+}
+func (r *recTx) Commit() error   { return nil }
+func (r *recTx) Rollback() error { return nil }
 
 // IndexKey returns the key under which clover's index on (coll, field) files value v for
 // document id (through the public index API on a recording transaction).
